@@ -205,6 +205,31 @@ def front (st : State) (client : Option Addr) (cd : Bool) (copts? : Option (List
   { noedns := copts?.isNone, copts := copts, fwd := fwd, cs := cs,
     view := rootView (ednsMarks copts?) cd (hasEcs (some fwd)) cs.isSome }
 
+/-- `pipe new` / `pipe load`: edns + cache built from one configuration (written in code, or
+to a file and read through `config.Load`). -/
+def pipeNewStep (st : State) (args : List String) : State × String :=
+  match args with
+  | en :: f4 :: f6 :: m4 :: m6 :: nets :: cap :: prefetch :: _cachesize =>
+    match buildFrom en f4 f6 m4 m6 nets, cap.toNat? with
+    | some r, some cap =>
+      -- `cache.New`: a prefetch percentage above 90 fails validation and falls back to 0,
+      -- 1..9 is raised to 10; the cache size never matters to any of this — in
+      -- particular not to the scoped TTL limit, which every fallback must keep
+      let pf0 : Nat := prefetch.toNat?.getD 0
+      let knobs := cacheKnobs ((_cachesize.head?.bind String.toNat?).getD 1024) pf0 cap
+      let pfv : Nat := knobs.prefetch
+      let cap : Nat := knobs.ecsMaxTTL
+      let st' : State := { pol := st.pol, ppol := r.policy, cap := cap, pf := pfv }
+      -- `edns.buildECSPolicy` and `cache.buildCacheECSPolicy` are the same function of the config
+      let show1 (p : Option Policy) : String := match p with
+        | none => "nil"
+        | some p => s!"{boolStr p.enabled},{p.fwd4},{p.fwd6},{p.min4},{p.min6},n{p.nets.length}"
+      let pe := ednsPolicy r
+      let pc := cachePolicy r
+      (st', if show1 pe == show1 pc then s!"pol={show1 pe}" else s!"edns={show1 pe} cache={show1 pc}")
+    | _, _ => (st, "bad-op")
+  | _ => (st, "bad-op")
+
 /-- one client query through edns and the cache (`zone`: the name lies below the
 denied name `d.z<k>`, so a miss may be answered from a shared NXDOMAIN cut). -/
 def qCore (st : State) (proto : String) (client : Option Addr) (qid : Nat) (cd : Bool)
@@ -303,31 +328,15 @@ def step (st : State) (w : List String) : State × String :=
     match parseClient c false, parseOpts opts with
     | some c, some o => (st, showPrefix? (requestScope st.pol c o))
     | _, _ => (st, "bad-op")
-  | "pipe" :: "new" :: en :: f4 :: f6 :: m4 :: m6 :: nets :: cap :: prefetch :: _cachesize =>
-    match buildFrom en f4 f6 m4 m6 nets, cap.toNat? with
-    | some r, some cap =>
-      -- `cache.New`: a prefetch percentage above 90 fails validation and falls back to 0,
-      -- 1..9 is raised to 10; the cache size never matters to any of this — in
-      -- particular not to the scoped TTL limit, which every fallback must keep
-      let pf0 : Nat := prefetch.toNat?.getD 0
-      let knobs := cacheKnobs ((_cachesize.head?.bind String.toNat?).getD 1024) pf0 cap
-      let pfv : Nat := knobs.prefetch
-      let cap : Nat := knobs.ecsMaxTTL
-      let st' : State := { pol := st.pol, ppol := r.policy, cap := cap, pf := pfv }
-      -- `edns.buildECSPolicy` and `cache.buildCacheECSPolicy` are the same function of the config
-      let show1 (p : Option Policy) : String := match p with
-        | none => "nil"
-        | some p => s!"{boolStr p.enabled},{p.fwd4},{p.fwd6},{p.min4},{p.min6},n{p.nets.length}"
-      let pe := ednsPolicy r
-      let pc := cachePolicy r
-      (st', if show1 pe == show1 pc then s!"pol={show1 pe}" else s!"edns={show1 pe} cache={show1 pc}")
-    | _, _ => (st, "bad-op")
+  | "pipe" :: "new" :: args => pipeNewStep st args
+  | "pipe" :: "load" :: args => pipeNewStep st args
   | ["pipe", "q", c, proto, qid, cd, copts, ttl, uopts, ans, kind] =>
     match clientOpts proto copts with
     | some none => (st, "formerr")
     | none => (st, "bad-op")
     | some (some copts?) =>
-    match parseClient c true, qid.toNat?, parseBool cd, some copts?, ttl.toNat?, parseOpts uopts, ans.toNat?, parseKind kind with
+    -- a downstream response with several OPT records: `IsEdns0` (cache scope, edns shaping) works on the last
+    match parseClient c true, qid.toNat?, parseBool cd, some copts?, ttl.toNat?, parseOpts ((uopts.splitOn "+").getLast?.getD "-"), ans.toNat?, parseKind kind with
     | some client, some qid, some cd, some copts?, some ttl, some uopts, some ans, some kind =>
       qCore st proto client qid cd copts? ttl uopts ans kind none
     | _, _, _, _, _, _, _, _ => (st, "bad-op")
@@ -489,6 +498,37 @@ def step (st : State) (w : List String) : State × String :=
       | none => (st, "bad-op")
       | some _ =>
         let up := resolverHandUp (some f.fwd) auth
+        let (st', out) := qCore st "udp" client 0 false copts? 300 up (st.l3n + 1) .success none
+        ((if out.startsWith "up=hit" then st' else { st' with l3n := st.l3n + 1 }), out)
+    | _, _ => (st, "bad-op")
+  | ["fwd", "new", en, f4, f6, m4, m6, nets, cap] =>
+    -- the real pipeline edns → cache → forwarder in front of a scripted ECS-aware upstream
+    match buildFrom en f4 f6 m4 m6 nets, cap.toNat? with
+    | some r, some cap => ({ pol := st.pol, ppol := r.policy, cap := cap }, "ok")
+    | _, _ => (st, "bad-op")
+  | ["fwd", "q", c, copts, decl] =>
+    match clientOpts "udp" copts, parseClient c true with
+    | some (some copts?), some client =>
+      let f := front st client false copts?
+      -- the leaf authority: "S<bits>" echoes the subnet option it was sent with that SCOPE,
+      -- "E…" attaches a fixed option, "-" none; the resolver hands up the request's OPT with
+      -- the authority's option in place of the forwarded one
+      let auth : Option (List Opt) :=
+        if decl.startsWith "S" then
+          match firstEcs f.fwd, (decl.drop 1).toNat? with
+          | some s, some b => some [.ecs { s with scope := b }]
+          | _, _ => some []
+        else if decl.startsWith "T" then
+          match firstEcs f.fwd, (decl.drop 1).toNat? with
+          | some s, some b => some [.ecs { s with mask := b, scope := b }]
+          | _, _ => some []
+        else if decl == "-" then some []
+        else (parseOpt decl).map (fun o => [o])
+      match auth with
+      | none => (st, "bad-op")
+      | some _ =>
+        -- the forwarder hands the upstream's response up as it came: its OPT, its declared scope
+        let up := auth
         let (st', out) := qCore st "udp" client 0 false copts? 300 up (st.l3n + 1) .success none
         ((if out.startsWith "up=hit" then st' else { st' with l3n := st.l3n + 1 }), out)
     | _, _ => (st, "bad-op")
